@@ -179,12 +179,13 @@ def find_function(relpath, qualname, sig=None, inclass=None, nth=1):
         # after the parameter list: qualifiers, optional init list / try, then '{'
         j = cp + 1
         rest = text[j:j + 4000]
-        mm = re.match(r'\s*(?:const\b\s*)?(?:noexcept\b\s*)?(?:override\b\s*)?(?:final\b\s*)?(?:->\s*[\w:<>\s\*&]+?)?\s*(try\b\s*)?(:|\{)', rest)
+        mm = re.match(r'\s*(?:const\b\s*)?(?:noexcept\b\s*)?(?:override\b\s*)?(?:final\b\s*)?(?:->\s*[\w:<>\s\*&]+?)?\s*(try\b\s*)?(:|\{|=\s*default\s*;)', rest)
         if not mm:
             continue  # a call or a declaration, not a definition
         is_try = bool(mm.group(1))
         inits = []
         k = j + mm.end() - 1
+        defaulted = mm.group(2).startswith('=')
         if mm.group(2) == ':':
             # constructor initialiser list: items name(expr) or name{expr} up to body '{'
             k += 1
@@ -214,17 +215,22 @@ def find_function(relpath, qualname, sig=None, inclass=None, nth=1):
             continue
         if re.search(r'\b(return|new|else)\s*$', bl):
             continue
-        hits.append((m.start(), params, k, inits, is_try))
+        hits.append((m.start(), params, (-k if defaulted else k), inits, is_try))
     if len(hits) < nth:
         raise ExtractionBreak("definition of %s%s not found in %s (matches: %d)" %
                               (qualname, " sig~'%s'" % sig if sig else '', relpath, len(hits)))
     start, params, ob, inits, is_try = hits[nth - 1]
-    cb = match_close(text, ob)
+    defaulted = ob < 0
+    if defaulted:
+        # T() = default;  -- the body is empty: only the default member initialisers run
+        ob = cb = -ob
+    else:
+        cb = match_close(text, ob)
     ex = Extracted()
     ex.file = relpath
     ex.qualname = (inclass + '::' if inclass else '') + qualname
     ex.params = params
-    ex.body = text[ob + 1:cb]
+    ex.body = '' if defaulted else text[ob + 1:cb]
     ex.inits = inits
     end = cb
     if is_try:
